@@ -290,6 +290,130 @@ func runC13(seed int64, n int, tier string, outDir string) (*Report, error) {
 		}
 		idx++
 	}
+	// variadic Append: several items in ONE call, with repeats inside the call and against the prior state
+	hdrV := "From AP.Model Require Import Prelude Vocab Pred Equal Coll.\n" + poolDef(pool) +
+		"Definition ok (c : bool * list nat * list nat * list item) : bool := let '(iris, prior, obs, fin) := c in\n" +
+		"  let st := fold_left (fun acc i => if iris then iris_collection (iris_append (map lnk acc) [nth i pool INil]) else ic_append acc [nth i pool INil]) prior [] in\n" +
+		"  list_eqb item_eqb fin (if iris then iris_collection (iris_append (map lnk st) (map (fun i => nth i pool INil) obs))\n" +
+		"                         else ic_append st (map (fun i => nth i pool INil) obs)).\n"
+	cwV := NewCaseWriter(outDir, "Cases_C13_variadic", hdrV, "bool * list nat * list nat * list item")
+	natList := func(l []int) string {
+		parts := make([]string, len(l))
+		for i, x := range l {
+			parts[i] = fmt.Sprint(x)
+		}
+		return "[" + strings.Join(parts, "; ") + "]"
+	}
+	variadic := func(kind int, prior, obs []int, toCoq bool) {
+		var final ap.ItemCollection
+		var panicked any
+		func() {
+			defer func() { panicked = recover() }()
+			items := func(l []int) []ap.Item {
+				out := make([]ap.Item, len(l))
+				for i, x := range l {
+					out[i] = pool[x]
+				}
+				return out
+			}
+			switch kind {
+			case 0:
+				c := new(ap.ItemCollection)
+				for _, x := range prior {
+					_ = c.Append(pool[x])
+				}
+				_ = c.Append(items(obs)...)
+				final = c.Collection()
+			case 1:
+				c := new(ap.IRIs)
+				for _, x := range prior {
+					_ = c.Append(pool[x])
+				}
+				_ = c.Append(items(obs)...)
+				final = c.Collection()
+			case 2:
+				c := new(ap.Collection)
+				for _, x := range prior {
+					_ = c.Append(pool[x])
+				}
+				_ = c.Append(items(obs)...)
+				final = c.Collection()
+			case 3:
+				c := new(ap.CollectionPage)
+				for _, x := range prior {
+					_ = c.Append(pool[x])
+				}
+				_ = c.Append(items(obs)...)
+				final = c.Collection()
+			case 4:
+				c := new(ap.OrderedCollection)
+				for _, x := range prior {
+					_ = c.Append(pool[x])
+				}
+				_ = c.Append(items(obs)...)
+				final = c.Collection()
+			default:
+				c := new(ap.OrderedCollectionPage)
+				for _, x := range prior {
+					_ = c.Append(pool[x])
+				}
+				_ = c.Append(items(obs)...)
+				final = c.Collection()
+			}
+		}()
+		rep.Evaluations++
+		// reference: insertion-ordered set of pool indices
+		var want []int
+		seen := map[int]bool{}
+		for _, x := range append(append([]int{}, prior...), obs...) {
+			if !seen[x] {
+				seen[x] = true
+				want = append(want, x)
+			}
+		}
+		got := make([]string, len(final))
+		for i, it := range final {
+			got[i] = CoqItem(it)
+		}
+		exp := make([]string, len(want))
+		for i, x := range want {
+			exp[i] = shown(kind, pool[x])
+		}
+		if panicked != nil || strings.Join(got, ";") != strings.Join(exp, ";") {
+			rep.Violate(Violation{Op: c13Containers[kind] + " Append(several items in one call)", Input: fmt.Sprintf("prior=%v appended=%v", prior, obs),
+				Expected: "members = insertion-ordered set " + fmt.Sprint(want), Observed: fmt.Sprintf("%d members: %s %v", len(final), strings.Join(got, "; "), panicked)})
+		}
+		rep.Count("variadic")
+		if toCoq && panicked == nil {
+			cwV.Add("("+cbool(kind == 1)+", "+natList(prior)+", "+natList(obs)+", ["+strings.Join(got, "; ")+"])", fmt.Sprintf("variadic %s prior=%v obs=%v", c13Containers[kind], prior, obs))
+		}
+	}
+	for kind := range c13Containers {
+		// exhaustive: all calls with 2 or 3 arguments over the pool, on the empty container and after one prior member
+		np := len(pool)
+		k := 0
+		for a := 0; a < np; a++ {
+			for b := 0; b < np; b++ {
+				variadic(kind, nil, []int{a, b}, (a+b+kind)%4 == 0)
+				for c := 0; c < np; c++ {
+					variadic(kind, []int{c}, []int{a, b, a}, k%41 == 0)
+					k++
+				}
+			}
+		}
+	}
+	for i := 0; i < n/2; i++ {
+		kind := i % len(c13Containers)
+		prior := make([]int, g.Intn(3))
+		for j := range prior {
+			prior[j] = g.Intn(len(pool))
+		}
+		obs := make([]int, 2+g.Intn(4))
+		for j := range obs {
+			obs[j] = g.Intn(len(pool))
+		}
+		variadic(kind, prior, obs, i%3 == 0)
+	}
 	// odd pool: correspondence only
 	for i := 0; i < n; i++ {
 		kind := i % len(c13Containers)
